@@ -123,9 +123,18 @@ func drive(args []string) {
 	var plans []plan
 	n := *workers
 	bud := *budget
+	// a library that starts goroutines of its own is always run under the
+	// scheduler, also for the single-caller configurations
+	libGo := false
+	if st, err := work.LoadSites(filepath.Join(*dir, "plain", "sites.json")); err == nil && st.GoStmt > 0 {
+		libGo = b.has("yield-entry")
+	}
 	switch *prop {
 	case "C10", "C15":
 		plans = []plan{{"plain", n}}
+		if libGo {
+			plans = []plan{{"yield-entry", n}}
+		}
 		if bud == 0 {
 			bud = map[string]time.Duration{"quick": 40 * time.Second, "thorough": 30 * time.Minute}[*tier]
 		}
@@ -143,6 +152,9 @@ func drive(args []string) {
 			plans = []plan{{"plain", n / 2}, {"yield-entry", n / 4}, {"yield-full", n - n/2 - n/4}}
 		} else {
 			plans = []plan{{"plain", n / 2}, {"yield-entry", n - n/2}}
+		}
+		if libGo {
+			plans = []plan{{"yield-entry", n}}
 		}
 		if bud == 0 {
 			bud = map[string]time.Duration{"quick": 25 * time.Second, "thorough": 10 * time.Minute}[*tier]
